@@ -174,6 +174,58 @@ pub fn run(ctx: &Ctx) -> i32 {
         }
     });
     col.layer("limit x files", done, complete, json!({"statements": nst, "line_sequences": nseq, "max_len": maxlen, "max_files": 3}));
+    // an aggregate result requested again from the same engine (update-only lines, result, more lines, result) keeps the first n groups
+    {
+        use sqlgrep::execution::execution_engine::{ExecutionConfig, ExecutionEngine};
+        let al = jlines();
+        let mut nr = 0u64;
+        for text in ["SELECT k, COUNT(*) FROM t GROUP BY k", "SELECT v, SUM(v) FROM t GROUP BY v", "SELECT k, COUNT(*) FROM t GROUP BY k HAVING COUNT(*) > 0"] {
+            for n in 0..=3usize {
+                for idx in 0..seq_count(k, 3) {
+                    let seq = seq_decode(idx, k, 3);
+                    for cut in 0..=seq.len() {
+                        let limited = sut::parse(&format!("{} LIMIT {}", text, n)).unwrap();
+                        let plain = sut::parse(text).unwrap();
+                        let run = |st: &sqlgrep::model::Statement| -> Option<Vec<Vec<Vec<sut::RVal>>>> {
+                            let r = catch(|| {
+                                let mut e = ExecutionEngine::new(&w.tables, st);
+                                let mut outs = Vec::new();
+                                for (i, li) in seq.iter().enumerate() {
+                                    if i == cut {
+                                        outs.push(e.execute(String::new(), &ExecutionConfig::aggregate_result()).ok()?.result_row.map(|r| r.data.iter().map(|x| x.columns.iter().map(sut::from_value).collect::<Vec<_>>()).collect::<Vec<_>>()).unwrap_or_default());
+                                    }
+                                    e.execute(al[*li as usize].to_string(), &ExecutionConfig::aggregate_update()).ok()?;
+                                }
+                                outs.push(e.execute(String::new(), &ExecutionConfig::aggregate_result()).ok()?.result_row.map(|r| r.data.iter().map(|x| x.columns.iter().map(sut::from_value).collect::<Vec<_>>()).collect::<Vec<_>>()).unwrap_or_default());
+                                Some(outs)
+                            });
+                            r.ok().flatten()
+                        };
+                        let (a, bq) = (run(&limited), run(&plain));
+                        nr += 1;
+                        col.eval(2);
+                        if let (Some(a), Some(bq)) = (a, bq) {
+                            let ok = a.len() == bq.len() && a.iter().zip(&bq).all(|(x, y)| sut::rows_same(x, &y.iter().take(n).cloned().collect::<Vec<_>>()));
+                            if cut < seq.len() && n > 0 {
+                                col.nontrivial(h64(&("again", text, n, idx, cut)));
+                            }
+                            if !ok {
+                                col.fail(fail(
+                                    "limit:aggregate:repeated-result".into(),
+                                    format!("`{} LIMIT {}` lines {:?}, result requested after {} lines and at the end: not the first {} groups of the unlimited results", text, n, seq, cut, n),
+                                    json!({"layer": "again", "statement": text, "n": n, "seq": seq, "cut": cut}),
+                                    json!(format!("{:?}", bq)),
+                                    json!(format!("{:?}", a)),
+                                    (seq.len() * 10 + n) as u64,
+                                ));
+                            }
+                        }
+                    }
+                }
+            }
+        }
+        col.layer("aggregate result requested twice from one engine", nr, true, json!({}));
+    }
     // follow mode (the real FollowFileExecutor in child processes): LIMIT n delivers the first n rows and then ends by itself
     {
         let mut nf = 0u64;
@@ -201,6 +253,37 @@ pub fn run(ctx: &Ctx) -> i32 {
                     col.traces_validated.fetch_add(1, std::sync::atomic::Ordering::Relaxed);
                     if n > 0 && n < all.len() {
                         col.nontrivial(h64(&("follow", n, sel, chunking)));
+                    }
+                    // consumption: with one line per append, nothing is appended (i.e. polled for) beyond the line that produced the n-th row
+                    let appended = crate::checks::c10::LAST_APPENDED.with(|a| *a.borrow());
+                    let producing: usize = if n == 0 {
+                        0
+                    } else {
+                        // index (1-based) of the line producing the n-th row, or all 4 lines when there are fewer rows
+                        let mut seen = std::collections::BTreeSet::new();
+                        let mut cnt = 0;
+                        let mut at = 4;
+                        for (i, l) in ["a", "b", "c", "a"].iter().enumerate() {
+                            let emits = match sel { 0 => true, 1 => *l != "b", _ => seen.insert(*l) };
+                            if emits {
+                                cnt += 1;
+                                if cnt == n {
+                                    at = i + 1;
+                                    break;
+                                }
+                            }
+                        }
+                        at
+                    };
+                    if chunking == 1 && delivered == expected && end == "ok" && appended > producing && producing < 4 {
+                        col.fail(fail(
+                            format!("limit:follow:over-consumed{}", if n == 0 { ":n=0" } else { "" }),
+                            format!("follow mode `{}`: the reader polled for / consumed {} appended lines, the n-th row was produced by line {}", stmt, appended, producing),
+                            json!({"layer": "follow", "statement": stmt, "chunking": chunking, "n": n}),
+                            json!({"appended_at_most": producing}),
+                            json!({"appended": appended}),
+                            n as u64,
+                        ));
                     }
                     if delivered != expected || end != "ok" || !ok {
                         col.fail(fail(
